@@ -248,6 +248,7 @@ Section LoopFacts.
   Qed.
 End LoopFacts.
 
+Ltac norm_app := repeat (rewrite <- app_assoc || rewrite <- app_comm_cons); cbn [app].
 Ltac len_simpl H := cbn [length] in H; repeat (rewrite app_length in H; cbn [length] in H).
 
 (** ** types *)
@@ -278,12 +279,12 @@ Proof.
     (destruct f as [|f]; [lia|]).
   - reflexivity.
   - reflexivity.
-  - apply andb_prop in Hwf as [Ha Hb]. cbn [app parse_ty]. rewrite <- !app_assoc. cbn [app].
+  - apply andb_prop in Hwf as [Ha Hb]. cbn [app parse_ty]. norm_app.
     rewrite (IHa Ha) by lia. cbn [expect is_comma]. rewrite (IHb Hb) by lia. reflexivity.
-  - cbn [app parse_ty]. rewrite <- !app_assoc. cbn [app]. rewrite (IHa Hwf) by lia. reflexivity.
+  - cbn [app parse_ty]. norm_app. rewrite (IHa Hwf) by lia. reflexivity.
   - reflexivity.
   - cbn [app parse_ty]. rewrite Hwf. reflexivity.
-  - cbn [app parse_ty]. rewrite <- !app_assoc. cbn [app].
+  - cbn [app parse_ty]. norm_app.
     rewrite (tuple_list_ok (fun ts' => parse_ty f ts') tokens_aty (fun x => x) (fun _ => True)); auto.
     + rewrite map_id. reflexivity.
     + rewrite Forall_forall in IHts. apply Forall_forall. intros x Hx. split; [apply tokens_aty_starts|].
@@ -291,9 +292,9 @@ Proof.
       pose proof (sepl_length_in [TComma] tokens_aty x ts Hx). lia.
     + pose proof (sepl_length_count [TComma] tokens_aty ts
                     (fun x _ => starts_ok_length _ (tokens_aty_starts x))). lia.
-  - apply andb_prop in Hwf as [Ha Hn]. cbn [app parse_ty]. rewrite <- !app_assoc. cbn [app].
+  - apply andb_prop in Hwf as [Ha Hn]. cbn [app parse_ty]. norm_app.
     rewrite (IHa Ha) by lia. rewrite Hn, Nat2N.id. reflexivity.
-  - apply andb_prop in Hwf as [Ha Hk]. cbn [app parse_ty]. rewrite <- !app_assoc. cbn [app].
+  - apply andb_prop in Hwf as [Ha Hk]. cbn [app parse_ty]. norm_app.
     rewrite (IHa Ha) by lia. rewrite (parse_bound_pow2 k Hk). reflexivity.
 Qed.
 
@@ -324,7 +325,7 @@ Proof.
     (destruct f as [|f]; [lia|]).
   - reflexivity.
   - reflexivity.
-  - cbn [app parse_pat]. rewrite <- !app_assoc. cbn [app].
+  - cbn [app parse_pat]. norm_app.
     rewrite (tuple_list_ok (fun ts' => parse_pat f ts') tokens_pat (fun x => x) (fun _ => True)); auto.
     + rewrite map_id. reflexivity.
     + rewrite Forall_forall in IHps. apply Forall_forall. intros x Hx. split; [apply tokens_pat_starts|].
@@ -332,7 +333,7 @@ Proof.
       pose proof (sepl_length_in [TComma] tokens_pat x ps Hx). lia.
     + pose proof (sepl_length_count [TComma] tokens_pat ps
                     (fun x _ => starts_ok_length _ (tokens_pat_starts x))). lia.
-  - cbn [app parse_pat]. rewrite <- !app_assoc. cbn [app].
+  - cbn [app parse_pat]. norm_app.
     rewrite (seq_list_ok (fun ts' => parse_pat f ts') tokens_pat (fun x => x) (fun _ => True) (fun _ => I)
                (fun _ => I) (fun _ => I) false); auto.
     + rewrite map_id. reflexivity.
@@ -349,3 +350,599 @@ Proof.
   intros p. rewrite <- (app_nil_r (tokens_pat p)) at 2. apply pattern_roundtrip_fuel. lia.
 Qed.
 Print Assumptions pattern_roundtrip.
+
+(** ** match patterns and arms *)
+
+Lemma mpat_roundtrip_fuel : forall m g rest,
+  mpat_wf m = true -> (length (tokens_mpat m) <= g)%nat ->
+  parse_mpat g (tokens_mpat m ++ rest) = Some (m, rest).
+Proof.
+  intros m g rest Hwf Hg. destruct m as [x t|x t| |x t| | ]; cbn [tokens_mpat mpat_wf] in *; try reflexivity;
+    len_simpl Hg; cbn [app parse_mpat]; norm_app; rewrite (type_roundtrip_fuel t Hwf) by lia; reflexivity.
+Qed.
+
+Lemma norm_arms_ok : forall lp el rp er,
+  arms_ok lp rp = true -> norm_arms lp el rp er = Some (lp, el, rp, er).
+Proof. intros lp el rp er H. destruct lp, rp; try discriminate H; reflexivity. Qed.
+
+(* Match::parse accepts the arms in the other order as well and stores them in the same way *)
+Lemma norm_arms_swap : forall lp el rp er,
+  arms_ok lp rp = true -> norm_arms rp er lp el = Some (lp, el, rp, er).
+Proof. intros lp el rp er H. destruct lp, rp; try discriminate H; reflexivity. Qed.
+
+(** ** expressions *)
+
+Definition ex_ok (pe : list tok -> option (pexpr * list tok)) (e : pexpr) : Prop :=
+  elem_ok pe tokens_expr erase_expr nolp e.
+
+Lemma parse_arm_ok : forall pe g m e rest,
+  mpat_wf m = true -> (length (tokens_mpat m) <= g)%nat -> ex_ok pe e ->
+  parse_arm pe g (tokens_mpat m ++ TFatArrow :: tokens_expr e ++ TComma :: rest) = Some (m, erase_expr e, rest).
+Proof.
+  intros pe g m e rest Hwf Hg [Hs Hx]. unfold parse_arm.
+  rewrite mpat_roundtrip_fuel by assumption. cbn [expect is_fatarrow].
+  pose proof (Hx (TComma :: rest) eq_refl) as Hp.
+  destruct (tokens_expr e) as [|t l]; [contradiction|]. cbn [app] in *. rewrite Hp.
+  destruct (is_lbrace t); reflexivity.
+Qed.
+
+Definition tokens_stmt (s : option (ppat * aty) * pexpr) : list tok :=
+  match s with
+  | (Some (p, t), e1) => tokens_let p t ++ tokens_expr e1 ++ [TSemi]
+  | (None, e1) => tokens_expr e1 ++ [TSemi]
+  end.
+
+Definition erase_stmt (s : option (ppat * aty) * pexpr) : option (ppat * aty) * pexpr :=
+  match s with (o, e1) => (o, erase_expr e1) end.
+
+Definition stmt_ok (pe : list tok -> option (pexpr * list tok)) (g : nat) (s : option (ppat * aty) * pexpr) : Prop :=
+  ex_ok pe (snd s) /\
+  match fst s with
+  | Some (p, t) => aty_wf t = true /\ (length (tokens_pat p) <= g)%nat /\ (length (tokens_aty t) <= g)%nat
+  | None => True
+  end.
+
+Lemma block_body_step : forall pe g n l r,
+  starts_ok l ->
+  block_body pe g (S n) (l ++ r)
+  = match pe (l ++ r) with
+    | Some (e, r1) =>
+        match r1 with
+        | [] => None
+        | t1 :: r2 =>
+            if is_semi t1 then
+              match block_body pe g n r2 with
+              | Some (ss, l', r3) => Some ((None, e) :: ss, l', r3)
+              | None => None
+              end
+            else if is_rbrace t1 then Some ([], Some e, r2)
+            else None
+        end
+    | None => None
+    end.
+Proof.
+  intros pe g n [|t l] r Hs; [contradiction|]. destruct Hs as (_ & _ & H3 & H4).
+  cbn [block_body app]. rewrite H3, H4. reflexivity.
+Qed.
+
+Lemma block_body_ok : forall pe g ss l n rest,
+  Forall (stmt_ok pe g) ss ->
+  match l with Some e => ex_ok pe e | None => True end ->
+  (length ss < n)%nat ->
+  block_body pe g n (flat_map tokens_stmt ss ++ match l with Some e => tokens_expr e | None => [] end
+                     ++ TRBrace :: rest)
+  = Some (map erase_stmt ss, option_map erase_expr l, rest).
+Proof.
+  intros pe g ss l. induction ss as [|s ss IH]; intros n rest Hss Hl Hn;
+    (destruct n as [|n]; [cbn in Hn; lia|]).
+  - cbn [flat_map app map]. destruct l as [e|]; [|reflexivity].
+    destruct Hl as [Hs Hx]. rewrite block_body_step by exact Hs.
+    rewrite Hx by reflexivity. reflexivity.
+  - inversion Hss as [|s0 l0 [[Hs Hx] Hpt] Hrest]; subst. cbn [length] in Hn.
+    destruct s as [[[p t]|] e]; cbn [fst snd] in *.
+    + destruct Hpt as (Ht & Hlp & Hlt).
+      cbn [flat_map tokens_stmt map erase_stmt]. unfold tokens_let. norm_app.
+      cbn [block_body is_rbrace is_let].
+      rewrite pattern_roundtrip_fuel by exact Hlp. cbn [expect is_colon].
+      rewrite (type_roundtrip_fuel t Ht) by exact Hlt. cbn [expect is_eq].
+      rewrite Hx by reflexivity. cbn [expect is_semi].
+      rewrite IH by (try assumption; lia). reflexivity.
+    + cbn [flat_map tokens_stmt map erase_stmt]. norm_app.
+      rewrite block_body_step by exact Hs. rewrite Hx by reflexivity. cbn [is_semi].
+      rewrite IH by (try assumption; lia). reflexivity.
+Qed.
+
+Definition expr_rt_at (e : pexpr) : Prop :=
+  expr_wf e = true ->
+  forall f rest, (length (tokens_expr e) <= f)%nat -> nolp rest ->
+  parse_expr f (tokens_expr e ++ rest) = Some (erase_expr e, rest).
+
+Lemma ex_ok_of_rt : forall e f,
+  expr_rt_at e -> expr_wf e = true -> (length (tokens_expr e) <= f)%nat ->
+  ex_ok (fun ts' => parse_expr f ts') e.
+Proof.
+  intros e f Hrt Hwf Hf. split; [apply tokens_expr_starts|]. intros rest Hr. apply Hrt; assumption.
+Qed.
+
+Lemma ex_elems_ok : forall es f,
+  Forall expr_rt_at es -> forallb expr_wf es = true ->
+  (length (sepl [TComma] (map tokens_expr es)) <= f)%nat ->
+  Forall (ex_ok (fun ts' => parse_expr f ts')) es /\
+  (length es <= length (sepl [TComma] (map tokens_expr es)))%nat.
+Proof.
+  intros es f Hrt Hwf Hf. split.
+  - rewrite Forall_forall in *. intros x Hx. apply ex_ok_of_rt; [apply Hrt; exact Hx|exact (forallb_In _ _ _ Hwf Hx)|].
+    pose proof (sepl_length_in [TComma] tokens_expr x es Hx). lia.
+  - pose proof (sepl_length_count [TComma] tokens_expr es
+                  (fun x _ => starts_ok_length _ (tokens_expr_starts x))). exact H.
+Qed.
+
+Ltac follow_goals := try (intros; reflexivity).
+
+(* the `call` part of parse_expr *)
+Lemma call_args_ok : forall f name args rest,
+  Forall expr_rt_at args -> forallb expr_wf args = true ->
+  (length (sepl [TComma] (map tokens_expr args)) <= f)%nat ->
+  match TLParen :: sepl [TComma] (map tokens_expr args) ++ TRParen :: rest with
+  | TLParen :: r1 =>
+      match args_list (fun ts' => parse_expr f ts') f r1 with
+      | Some (args', r2) => Some (PCall 0 name args', r2)
+      | None => None
+      end
+  | _ => None
+  end = Some (PCall 0 name (map erase_expr args), rest).
+Proof.
+  intros f name args rest Hrt Hwf Hf. destruct (ex_elems_ok args f Hrt Hwf Hf) as [Hall Hlen].
+  rewrite (args_list_ok (fun ts' => parse_expr f ts') tokens_expr erase_expr nolp); follow_goals; auto. lia.
+Qed.
+
+Theorem expr_roundtrip_fuel : forall e, expr_rt_at e.
+Proof.
+  induction e as [ss l Hss Hl|b|li|n|n|x|e IHe|es IHes|es IHes|es IHes|e IHe|e IHe| |e IHe
+                 |sp name args IHargs|s lp el rp er IHs IHl IHr] using pexpr_ind';
+    intros Hwf f rest Hf Hrest; cbn [expr_wf] in Hwf; cbn [tokens_expr] in Hf; len_simpl Hf;
+    (destruct f as [|f]; [lia|]).
+  - (* PBlock *)
+    apply andb_prop in Hwf as [Hwss Hwl].
+    change (tokens_expr (PBlock ss l))
+      with (TLBrace :: flat_map tokens_stmt ss ++ match l with Some e1 => tokens_expr e1 | None => [] end ++ [TRBrace]).
+    change (erase_expr (PBlock ss l)) with (PBlock (map erase_stmt ss) (option_map erase_expr l)).
+    change (length (flat_map _ ss)) with (length (flat_map tokens_stmt ss)) in Hf.
+    norm_app. cbn [parse_expr].
+    rewrite block_body_ok; [reflexivity| | |].
+    + rewrite Forall_forall in *. intros s Hs. specialize (Hss s Hs).
+      pose proof (forallb_In _ _ _ Hwss Hs) as Hws. cbn beta in Hws.
+      assert (Hlen : (length (tokens_stmt s) <= f)%nat).
+      { assert (length (tokens_stmt s) <= length (flat_map tokens_stmt ss))%nat; [|lia].
+        clear - Hs. induction ss as [|s' ss IH]; [contradiction|]. cbn [flat_map]. rewrite app_length.
+        destruct Hs as [->|Hs]; [lia|]. specialize (IH Hs). lia. }
+      destruct s as [[[p t]|] e]; unfold stmt_ok; cbn [snd fst tokens_stmt] in *; unfold tokens_let in *; len_simpl Hlen.
+      * apply andb_prop in Hws as [Hwt Hwe]. split; [apply ex_ok_of_rt; [exact Hss|exact Hwe|lia]|].
+        repeat split; [exact Hwt|lia|lia].
+      * split; [apply ex_ok_of_rt; [exact Hss|exact Hws|lia]|exact I].
+    + destruct l as [e|]; [|exact I]. cbn [popt_P] in Hl. apply ex_ok_of_rt; [exact Hl|exact Hwl|lia].
+    + assert (length ss <= length (flat_map tokens_stmt ss))%nat; [|lia].
+      clear. induction ss as [|s ss IH]; [cbn; lia|]. cbn [flat_map length]. rewrite app_length.
+      assert (1 <= length (tokens_stmt s))%nat; [|lia].
+      destruct s as [[[p t]|] e]; cbn [tokens_stmt]; unfold tokens_let; rewrite ?app_length; cbn [length]; lia.
+  - (* PBool *) destruct b; reflexivity.
+  - (* PLit *) destruct li; cbn [lit_wf] in Hwf; cbn [tokens_expr lit_tok app parse_expr]; rewrite Hwf; reflexivity.
+  - reflexivity.
+  - reflexivity.
+  - (* PVar *) cbn [tokens_expr app parse_expr]. destruct rest as [|t r]; [reflexivity|].
+    cbn [nolp] in Hrest. rewrite Hrest. reflexivity.
+  - (* PParen *) cbn [tokens_expr app parse_expr]. norm_app.
+    rewrite (tuple_list_paren (fun ts' => parse_expr f ts') tokens_expr erase_expr nolp); follow_goals.
+    apply ex_ok_of_rt; [exact IHe|exact Hwf|lia].
+  - (* PTuple *) cbn [tokens_expr app parse_expr]. norm_app.
+    assert (Hl : (length (sepl [TComma] (map tokens_expr es)) <= f)%nat) by (clear - Hf; lia).
+    destruct (ex_elems_ok es f IHes Hwf Hl) as [Hall Hlen].
+    rewrite (tuple_list_ok (fun ts' => parse_expr f ts') tokens_expr erase_expr nolp); follow_goals; auto. lia.
+  - (* PArray *) cbn [tokens_expr app parse_expr]. norm_app.
+    assert (Hl : (length (sepl [TComma] (map tokens_expr es)) <= f)%nat) by (clear - Hf; lia).
+    destruct (ex_elems_ok es f IHes Hwf Hl) as [Hall Hlen].
+    rewrite (seq_list_ok (fun ts' => parse_expr f ts') tokens_expr erase_expr nolp) with (paren := false);
+      follow_goals; auto. clear - Hf Hlen. lia.
+  - (* PList *) cbn [tokens_expr app parse_expr]. norm_app.
+    assert (Hl : (length (sepl [TComma] (map tokens_expr es)) <= f)%nat) by (clear - Hf; lia).
+    destruct (ex_elems_ok es f IHes Hwf Hl) as [Hall Hlen].
+    rewrite (seq_list_ok (fun ts' => parse_expr f ts') tokens_expr erase_expr nolp) with (paren := false);
+      follow_goals; auto. clear - Hf Hlen. lia.
+  - (* PLeft *) cbn [tokens_expr app parse_expr]. norm_app. rewrite (IHe Hwf) by (try reflexivity; lia). reflexivity.
+  - (* PRight *) cbn [tokens_expr app parse_expr]. norm_app. rewrite (IHe Hwf) by (try reflexivity; lia). reflexivity.
+  - reflexivity.
+  - (* PSome *) cbn [tokens_expr app parse_expr]. norm_app. rewrite (IHe Hwf) by (try reflexivity; lia). reflexivity.
+  - (* PCall *)
+    apply andb_prop in Hwf as [Hwn Hwa]. cbn [erase_expr].
+    destruct name as [j|t|t|t| | | | |t|fn|fn k|fn]; cbn [tokens_callname callname_wf] in *; len_simpl Hf;
+      cbn [tokens_expr tokens_callname app parse_expr]; norm_app;
+      try (rewrite (type_roundtrip_fuel t Hwn) by lia; cbn [expect is_gt is_gtinto]);
+      try (rewrite (parse_bound_pow2 k Hwn));
+      try (cbn [is_lparen]);
+      apply call_args_ok; auto; lia.
+  - (* PMatch *)
+    repeat (apply andb_prop in Hwf as [Hwf ?]).
+    cbn [tokens_expr app parse_expr erase_expr]. norm_app.
+    rewrite (IHs Hwf) by (try reflexivity; lia). cbn [expect is_lbrace].
+    rewrite parse_arm_ok by first [assumption | (clear - Hf; lia) | (apply ex_ok_of_rt; [assumption|assumption|clear - Hf; lia])].
+    rewrite parse_arm_ok by first [assumption | (clear - Hf; lia) | (apply ex_ok_of_rt; [assumption|assumption|clear - Hf; lia])].
+    cbn [expect is_rbrace]. rewrite norm_arms_ok by assumption. reflexivity.
+Qed.
+
+Theorem expr_roundtrip : forall e,
+  expr_wf e = true -> parse_expr (length (tokens_expr e)) (tokens_expr e) = Some (erase_expr e, []).
+Proof.
+  intros e Hwf. rewrite <- (app_nil_r (tokens_expr e)) at 2. apply expr_roundtrip_fuel; [exact Hwf|lia|exact I].
+Qed.
+Print Assumptions expr_roundtrip.
+
+(** ** items and programs *)
+
+Lemma param_ok : forall f p,
+  aty_wf (snd p) = true -> (length (tokens_param p) <= f)%nat ->
+  elem_ok (parse_param f) tokens_param (fun x => x) (fun _ => True) p.
+Proof.
+  intros f [x t] Hwf Hf. split; [apply tokens_param_starts|]. intros rest _.
+  unfold tokens_param in *. cbn [fst snd app parse_param] in *. len_simpl Hf.
+  rewrite (type_roundtrip_fuel t Hwf) by lia. reflexivity.
+Qed.
+
+Lemma fn_body_ok : forall f name ps ret body rest,
+  is_block body = true -> expr_wf body = true -> (length (tokens_expr body) <= f)%nat -> nolp rest ->
+  match tokens_expr body ++ rest with
+  | TLBrace :: _ =>
+      match parse_expr f (tokens_expr body ++ rest) with
+      | Some (b, r3) => Some (IFunction name ps ret b, r3)
+      | None => None
+      end
+  | _ => None
+  end = Some (IFunction name ps ret (erase_expr body), rest).
+Proof.
+  intros f name ps ret body rest Hb Hwf Hf Hrest.
+  rewrite (expr_roundtrip_fuel body Hwf f rest Hf Hrest).
+  destruct body; try discriminate Hb. reflexivity.
+Qed.
+
+Lemma item_roundtrip_fuel : forall i f rest,
+  item_wf i = true -> (length (tokens_item i) <= f)%nat -> nolp rest ->
+  parse_item f (tokens_item i ++ rest) = Some (erase_item i, rest).
+Proof.
+  intros i f rest Hwf Hf Hrest. destruct i as [n t|name ps ret body| ]; cbn [item_wf tokens_item] in *; len_simpl Hf.
+  - cbn [app parse_item erase_item]. norm_app. rewrite (type_roundtrip_fuel t Hwf) by lia. reflexivity.
+  - apply andb_prop in Hwf as [Hwf Hwb]. apply andb_prop in Hwf as [Hwf Hbl]. apply andb_prop in Hwf as [Hwp Hwr].
+    cbn [app parse_item erase_item]. norm_app.
+    rewrite (args_list_ok (parse_param f) tokens_param (fun x => x) (fun _ => True)); auto.
+    + rewrite map_id. destruct ret as [t|].
+      * cbn [app]. norm_app. len_simpl Hf. rewrite (type_roundtrip_fuel t Hwr) by lia.
+        apply fn_body_ok; try assumption. lia.
+      * cbn [app]. destruct body as [ss l| | | | | | | | | | | | | | | ]; try discriminate Hbl.
+        apply (fn_body_ok f name ps None (PBlock ss l) rest); try assumption. cbn [length] in Hf. lia.
+    + apply Forall_forall. intros p Hp. apply param_ok.
+      * exact (forallb_In _ _ _ Hwp Hp).
+      * pose proof (sepl_length_in [TComma] tokens_param p ps Hp). lia.
+    + pose proof (sepl_length_count [TComma] tokens_param ps
+                    (fun x _ => starts_ok_length _ (tokens_param_starts x))). lia.
+  - do 4 (destruct f as [|f]; [cbn in Hf; lia|]). reflexivity.
+Qed.
+
+Lemma nolp_program : forall p, nolp (tokens_program p).
+Proof. intros [|i p]; [exact I|]. destruct i; reflexivity. Qed.
+
+Lemma parse_items_step : forall f n i r,
+  parse_items f (S n) (tokens_item i ++ r)
+  = match parse_item f (tokens_item i ++ r) with
+    | Some (i', r') =>
+        match parse_items f n r' with
+        | Some is => Some (i' :: is)
+        | None => None
+        end
+    | None => None
+    end.
+Proof. intros f n i r. destruct i; reflexivity. Qed.
+
+Lemma items_roundtrip : forall p f n,
+  prog_wf p = true ->
+  (forall i, In i p -> (length (tokens_item i) <= f)%nat) -> (length p < n)%nat ->
+  parse_items f n (tokens_program p) = Some (erase_program p).
+Proof.
+  induction p as [|i p IH]; intros f n Hwf Hf Hn; (destruct n as [|n]; [cbn in Hn; lia|]).
+  - reflexivity.
+  - cbn [prog_wf forallb] in Hwf. apply andb_prop in Hwf as [Hi Hp].
+    change (tokens_program (i :: p)) with (tokens_item i ++ tokens_program p).
+    rewrite parse_items_step.
+    rewrite item_roundtrip_fuel by (try exact Hi; try apply nolp_program; apply Hf; left; reflexivity).
+    rewrite IH; [reflexivity|exact Hp| |cbn [length] in Hn; lia].
+    intros i' Hi'. apply Hf. right. exact Hi'.
+Qed.
+
+Lemma tokens_item_length : forall i, (1 <= length (tokens_item i))%nat.
+Proof. destruct i; cbn; lia. Qed.
+
+Lemma tokens_program_bounds : forall p,
+  (length p <= length (tokens_program p))%nat /\
+  (forall i, In i p -> (length (tokens_item i) <= length (tokens_program p))%nat).
+Proof.
+  induction p as [|j p [IH1 IH2]]; [split; [cbn; lia|intros i []]|].
+  change (tokens_program (j :: p)) with (tokens_item j ++ tokens_program p). rewrite app_length.
+  pose proof (tokens_item_length j). split; [cbn [length]; lia|].
+  intros i [->|Hi]; [lia|]. specialize (IH2 i Hi). lia.
+Qed.
+
+(* MAIN THEOREM: the tokens the printer emits for a parse tree with the properties the parser guarantees
+   ([prog_wf]) are read back as the same tree (up to the span ids of calls, which the text does not carry).
+   Any fuel above the number of tokens suffices. *)
+Theorem print_tokens_roundtrip : forall p fuel,
+  prog_wf p = true -> (length (tokens_program p) < fuel)%nat ->
+  parse_tokens fuel (tokens_program p) = Some (erase_program p).
+Proof.
+  intros p fuel Hwf Hfuel. unfold parse_tokens. destruct (tokens_program_bounds p) as [H1 H2].
+  apply items_roundtrip; [exact Hwf| |lia].
+  intros i Hi. specialize (H2 i Hi). lia.
+Qed.
+Print Assumptions print_tokens_roundtrip.
+
+Corollary print_tokens_roundtrip_default : forall p,
+  prog_wf p = true -> parse_token_list (tokens_program p) = Some (erase_program p).
+Proof. intros p Hwf. unfold parse_token_list. apply print_tokens_roundtrip; [exact Hwf|lia]. Qed.
+
+(* printing is injective on well-formed trees, up to span ids *)
+Corollary tokens_injective : forall p q,
+  tokens_program p = tokens_program q -> prog_wf p = true -> prog_wf q = true ->
+  erase_program p = erase_program q.
+Proof.
+  intros p q Heq Hp Hq.
+  pose proof (print_tokens_roundtrip_default p Hp) as H1.
+  pose proof (print_tokens_roundtrip_default q Hq) as H2.
+  rewrite Heq in H1. rewrite H1 in H2. now inversion H2.
+Qed.
+Print Assumptions tokens_injective.
+
+(** ** trees without span ids *)
+
+Fixpoint expr_sp0 (e : pexpr) : bool :=
+  match e with
+  | PBlock ss l =>
+      forallb (fun s : option (ppat * aty) * pexpr => expr_sp0 (snd s)) ss
+      && match l with Some e1 => expr_sp0 e1 | None => true end
+  | PBool _ | PLit _ | PWitness _ | PParam _ | PVar _ | PNone => true
+  | PParen e1 | PLeft e1 | PRight e1 | PSome e1 => expr_sp0 e1
+  | PTuple es | PArray es | PList es => forallb expr_sp0 es
+  | PCall sp _ args => (sp =? 0) && forallb expr_sp0 args
+  | PMatch s _ el _ er => expr_sp0 s && expr_sp0 el && expr_sp0 er
+  end.
+
+Definition item_sp0 (i : pitem) : bool :=
+  match i with IFunction _ _ _ body => expr_sp0 body | _ => true end.
+
+Definition prog_sp0 (p : pprogram) : bool := forallb item_sp0 p.
+
+Lemma map_id_In : forall {A} (f : A -> A) l, (forall x, In x l -> f x = x) -> map f l = l.
+Proof.
+  intros A f l H. induction l as [|x l IH]; [reflexivity|]. cbn [map].
+  rewrite H by (left; reflexivity). rewrite IH; [reflexivity|]. intros y Hy. apply H. right. exact Hy.
+Qed.
+
+Lemma erase_expr_sp0 : forall e, expr_sp0 e = true -> erase_expr e = e.
+Proof.
+  induction e as [ss l Hss Hl|b|li|n|n|x|e IHe|es IHes|es IHes|es IHes|e IHe|e IHe| |e IHe
+                 |sp name args IHargs|s lp el rp er IHs IHl IHr] using pexpr_ind';
+    intros H0; cbn [expr_sp0 erase_expr] in *; try reflexivity;
+    try (rewrite IHe by exact H0; reflexivity);
+    try (rewrite map_id_In; [reflexivity|]; rewrite Forall_forall in IHes; intros x Hx; apply IHes;
+         [exact Hx|exact (forallb_In _ _ _ H0 Hx)]).
+  - apply andb_prop in H0 as [H1 H2]. f_equal.
+    + apply map_id_In. rewrite Forall_forall in Hss. intros [o e1] Hx. f_equal.
+      apply (Hss _ Hx). exact (forallb_In _ _ _ H1 Hx).
+    + destruct l as [e1|]; [|reflexivity]. cbn [popt_P] in Hl. now rewrite Hl.
+  - apply andb_prop in H0 as [H1 H2]. apply N.eqb_eq in H1. subst sp. f_equal.
+    apply map_id_In. rewrite Forall_forall in IHargs. intros x Hx. apply IHargs; [exact Hx|exact (forallb_In _ _ _ H2 Hx)].
+  - apply andb_prop in H0 as [H1 H3]. apply andb_prop in H1 as [H1 H2].
+    now rewrite IHs, IHl, IHr.
+Qed.
+
+Lemma erase_program_sp0 : forall p, prog_sp0 p = true -> erase_program p = p.
+Proof.
+  intros p H. apply map_id_In. intros i Hi. pose proof (forallb_In _ _ _ H Hi) as H0.
+  destruct i as [| name ps ret body|]; try reflexivity. cbn [item_sp0 erase_item] in *. now rewrite erase_expr_sp0.
+Qed.
+
+Corollary print_tokens_roundtrip_sp0 : forall p,
+  prog_wf p = true -> prog_sp0 p = true -> parse_token_list (tokens_program p) = Some p.
+Proof. intros p Hwf H0. rewrite print_tokens_roundtrip_default by exact Hwf. now rewrite erase_program_sp0. Qed.
+
+Corollary tokens_injective_sp0 : forall p q,
+  tokens_program p = tokens_program q -> prog_wf p = true -> prog_wf q = true ->
+  prog_sp0 p = true -> prog_sp0 q = true -> p = q.
+Proof.
+  intros p q Heq Hp Hq Hp0 Hq0. rewrite <- (erase_program_sp0 p Hp0), <- (erase_program_sp0 q Hq0).
+  now apply tokens_injective.
+Qed.
+Print Assumptions tokens_injective_sp0.
+
+(** * Part 1: the verbose pre-order iterator on any tree with a node count *)
+
+Section VPOGen.
+  Context {T : Type}.
+  Variable children : T -> list T.
+  Variable count : T -> nat.
+  Hypothesis Hcount : forall t, count t = S (list_sum (map count (children t))).
+
+  (* the items yielded for the subtree t, by recursion on the count *)
+  Fixpoint gev (fuel : nat) (t : T) : list (vpo_item T) :=
+    match fuel with
+    | O => []
+    | S f => node_items children (gev f) t
+    end.
+  Definition vev (t : T) : list (vpo_item T) := gev (count t) t.
+
+  Lemma count_child : forall t c, In c (children t) -> (count c < count t)%nat.
+  Proof.
+    intros t c Hc. rewrite (Hcount t). pose proof (list_sum_in_le count c (children t) Hc). lia.
+  Qed.
+
+  Lemma gev_stable : forall f1 f2 t, (count t <= f1)%nat -> (count t <= f2)%nat -> gev f1 t = gev f2 t.
+  Proof.
+    induction f1 as [|f1 IH]; intros f2 t H1 H2.
+    - pose proof (Hcount t). lia.
+    - destruct f2 as [|f2]; [pose proof (Hcount t); lia|]. cbn [gev]. unfold node_items. f_equal. f_equal.
+      apply map_ext_in. intros c Hc. pose proof (count_child t c Hc). apply IH; lia.
+  Qed.
+
+  Lemma vev_unfold : forall t, vev t = node_items children vev t.
+  Proof.
+    intros t. unfold vev at 1. pose proof (Hcount t) as H. rewrite H. cbn [gev]. unfold node_items.
+    f_equal. f_equal. apply map_ext_in. intros c Hc. unfold vev.
+    pose proof (list_sum_in_le count c (children t) Hc). apply gev_stable; lia.
+  Qed.
+
+  Lemma vev_good : forall t, vpo_good children vev t.
+  Proof.
+    assert (H : forall n t, (count t <= n)%nat -> vpo_good children vev t).
+    { induction n as [|n IH]; intros t Hn; [pose proof (Hcount t); lia|].
+      unfold vpo_good. intros fuel st Hf. rewrite (vev_unfold t) in *.
+      apply vpo_node; [|exact Hf]. apply Forall_forall. intros c Hc.
+      pose proof (count_child t c Hc). apply IH. lia. }
+    intros t. apply (H (count t)). lia.
+  Qed.
+
+  Lemma vev_length : forall t, S (length (vev t)) = (2 * count t)%nat.
+  Proof.
+    assert (H : forall n t, (count t <= n)%nat -> S (length (vev t)) = (2 * count t)%nat).
+    { induction n as [|n IH]; intros t Hn; [pose proof (Hcount t); lia|].
+      rewrite (vev_unfold t). unfold node_items. cbn [length]. rewrite interleave_length, map_map.
+      rewrite (Hcount t).
+      assert (Hl : forall l, (forall c, In c l -> In c (children t)) ->
+                list_sum (map (fun c => S (length (vev c))) l) = (2 * list_sum (map count l))%nat).
+      { induction l as [|c l IHl]; intros Hin; [reflexivity|].
+        cbn [map list_sum fold_right].
+        fold (list_sum (map (fun c0 => S (length (vev c0))) l)). fold (list_sum (map count l)).
+        rewrite IHl by (intros c0 Hc0; apply Hin; right; exact Hc0).
+        pose proof (count_child t c (Hin c (or_introl eq_refl))).
+        rewrite (IH c) by lia. lia. }
+      rewrite Hl by auto. lia. }
+    intros t. apply (H (count t)). lia.
+  Qed.
+
+  Lemma vpo_run_nil : forall fuel, vpo_run children fuel [] = [].
+  Proof. destruct fuel; reflexivity. Qed.
+
+  (* with fuel 2 * count t the iterator yields exactly the items of t *)
+  Lemma vev_machine : forall t, vpo_run children (2 * count t) [vpo_initial children t] = vev t.
+  Proof.
+    intros t. pose proof (vev_length t). rewrite (vev_good t) by lia. rewrite vpo_run_nil. apply app_nil_r.
+  Qed.
+
+  Section Disp.
+    Variable disp : vpo_item T -> list N.
+    Definition vtxt (t : T) : list N := flat_map disp (vev t).
+
+    Lemma vtxt_inter : forall t nc cs i,
+      flat_map disp (interleave t nc i (map vev cs))
+      = inter_out vtxt (fun j => disp (t, j, Nat.eqb j nc)) i cs.
+    Proof.
+      intros t nc cs. induction cs as [|c cs IH]; intros i; cbn [map interleave inter_out flat_map]; [reflexivity|].
+      rewrite flat_map_app. cbn [flat_map]. rewrite IH. reflexivity.
+    Qed.
+
+    (* what is printed for a node: its first visit, then every child followed by the revisit *)
+    Lemma vtxt_unfold : forall t,
+      vtxt t = disp (vpo_initial children t)
+               ++ inter_out vtxt (fun j => disp (t, j, Nat.eqb j (length (children t)))) 0 (children t).
+    Proof.
+      intros t. unfold vtxt at 1. rewrite (vev_unfold t). unfold node_items. cbn [flat_map].
+      rewrite vtxt_inter. reflexivity.
+    Qed.
+  End Disp.
+End VPOGen.
+
+(** * Part 2: the state machines print what the structural printers print *)
+
+Lemma render_app : forall ns a b, render ns (a ++ b) = render ns a ++ render ns b.
+Proof. intros. apply flat_map_app. Qed.
+Lemma render_cons : forall ns i l, render ns (i :: l) = render_item ns i ++ render ns l.
+Proof. reflexivity. Qed.
+Lemma render_nil : forall ns, render ns [] = [].
+Proof. reflexivity. Qed.
+
+Lemma render_sepl : forall ns sep xs,
+  render ns (sepl sep xs) = sep_by (render ns sep) (map (render ns) xs).
+Proof.
+  intros ns sep xs. induction xs as [|x [|y xs] IH]; [reflexivity|reflexivity|].
+  rewrite sepl_cons2. cbn [map]. rewrite sep_by_cons2. rewrite !render_app, IH. reflexivity.
+Qed.
+
+Lemma map_ext_Forall : forall {A B} (f g : A -> B) l, Forall (fun x => f x = g x) l -> map f l = map g l.
+Proof. intros A B f g l H. induction H as [|x l Hx _ IH]; [reflexivity|]. cbn [map]. now rewrite Hx, IH. Qed.
+
+(* the common shape of tuples, arrays, lists and call arguments *)
+Lemma seq_text : forall {A} (pp : A -> list N) open close extra cs,
+  seq_display open close extra 0 (Nat.eqb (length cs) 0)
+  ++ inter_out pp (fun j => seq_display open close extra j (Nat.eqb j (length cs))) 0%nat cs
+  = open ++ sep_by [44; 32] (map pp cs) ++ (if extra && nonempty cs then [44; 32] else []) ++ close.
+Proof.
+  intros A pp open close extra cs. destruct cs as [|c cs].
+  - cbn [length Nat.eqb seq_display inter_out map sep_by nonempty app]. rewrite andb_false_r, app_nil_r. reflexivity.
+  - rewrite (inter_out_sep pp _ [44; 32] ((if extra then [44; 32] else []) ++ close) (length (c :: cs))).
+    + cbn [length Nat.eqb seq_display nonempty]. rewrite andb_true_r, app_nil_r, <- !app_assoc. reflexivity.
+    + intros j Hj. destruct j as [|j]; [lia|]. unfold seq_display.
+      replace (Nat.eqb (S j) (length (c :: cs))) with false by (symmetry; apply Nat.eqb_neq; lia).
+      cbn [negb orb]. apply app_nil_r.
+    + unfold seq_display. rewrite Nat.eqb_refl. cbn [length negb orb]. reflexivity.
+    + reflexivity.
+    + discriminate.
+Qed.
+
+Section MachineProofs.
+  Variable ns : N -> list N.
+
+  (** ** types *)
+  Definition adisp (it : vpo_item aty) : list N := let '(node, n, _) := it in aty_display ns node n.
+
+  Lemma aty_count_eq : forall t, aty_count t = S (list_sum (map aty_count (aty_children t))).
+  Proof. destruct t; cbn [aty_count aty_children map list_sum fold_right]; lia. Qed.
+
+  Local Notation atxt := (vtxt aty_children aty_count adisp).
+
+  Lemma atxt_unfold : forall t,
+    atxt t = aty_display ns t 0
+             ++ inter_out atxt (fun j => aty_display ns t j) 0%nat (aty_children t).
+  Proof. intros t. rewrite (vtxt_unfold aty_children aty_count aty_count_eq adisp t). reflexivity. Qed.
+
+  Lemma aty_txt : forall t, atxt t = render ns (lay_aty t).
+  Proof.
+    induction t as [n|n|a b IHa IHb|a IHa| |k|ts IHts|a n IHa|a k IHa] using aty_ind';
+      rewrite atxt_unfold; cbn [aty_children inter_out aty_display lay_aty].
+    - cbn. reflexivity.
+    - cbn. reflexivity.
+    - rewrite IHa, IHb. rewrite !render_cons, !render_app, !render_cons. cbn [render_item spell render app].
+      rewrite <- ?app_assoc. reflexivity.
+    - rewrite IHa. rewrite !render_cons, !render_app. cbn. rewrite <- ?app_assoc. reflexivity.
+    - cbn. reflexivity.
+    - cbn. reflexivity.
+    - rewrite (map_ext_Forall _ _ _ IHts) at 0.
+      destruct ts as [|a [|b ts]].
+      + reflexivity.
+      + inversion IHts as [|x l Ha _]; subst. cbn [inter_out aty_display length Nat.eqb map sepl one app].
+        rewrite Ha. rewrite !render_cons, !render_app. cbn. rewrite <- ?app_assoc. reflexivity.
+      + rewrite (inter_out_sep atxt _ [44; 32] [41] (length (a :: b :: ts))).
+        * rewrite (map_ext_Forall _ _ _ IHts).
+          rewrite render_cons, render_app, render_sepl, map_map. cbn [one app render render_item spell flat_map].
+          reflexivity.
+        * intros j Hj. destruct j as [|j]; [lia|].
+          replace (Nat.eqb (S j) (length (a :: b :: ts))) with false by (symmetry; apply Nat.eqb_neq; lia).
+          reflexivity.
+        * cbn [length]. rewrite Nat.eqb_refl. reflexivity.
+        * reflexivity.
+        * discriminate.
+    - rewrite IHa. rewrite !render_cons, !render_app. cbn. rewrite <- ?app_assoc. reflexivity.
+    - rewrite IHa. rewrite !render_cons, !render_app. cbn. rewrite <- ?app_assoc. reflexivity.
+  Qed.
+
+  (* MAIN THEOREM (types): the machine of Display for AliasedType prints the structural text *)
+  Theorem aty_print_machine_eq : forall t, aty_print_machine ns t = print_aty ns t.
+  Proof.
+    intros t. unfold aty_print_machine, print_aty.
+    rewrite (vev_machine aty_children aty_count aty_count_eq). apply aty_txt.
+  Qed.
+End MachineProofs.
+Print Assumptions aty_print_machine_eq.
